@@ -46,7 +46,10 @@ func expFlits(bytes, flit int, ovNum, ovShift int) int {
 	return (enc + flit - 1) / flit
 }
 
-func genC29(rt *rapid.T) c29Case {
+func genC29(rt *rapid.T) c29Case { return genC29Sized(rt, c29FlitBudget, 300) }
+
+// genC29Sized: at most maxMsgs messages and flitBudget flits.
+func genC29Sized(rt *rapid.T, flitBudget, maxMsgs int) c29Case {
 	kind := genKind(rt)
 	stalls := rapid.IntRange(0, 2).Draw(rt, "stalls") == 0
 	c := c29Case{Conn: genConn(rt, kind)}
@@ -62,12 +65,12 @@ func genC29(rt *rapid.T) c29Case {
 	}
 	flit := flitSizeOf(c.Conn)
 	nmsg := rapid.SampledFrom([]int{1, 2, 5, 10, 20, 40, 80, 150, 300}).Draw(rt, "nmsgClass")
-	nmsg = rapid.IntRange(max(1, nmsg/2), nmsg).Draw(rt, "nmsg")
+	nmsg = min(maxMsgs, rapid.IntRange(max(1, nmsg/2), nmsg).Draw(rt, "nmsg"))
 	hot := -1
 	if rapid.IntRange(0, 3).Draw(rt, "hotspot") == 0 {
 		hot = rapid.IntRange(0, len(pts)-1).Draw(rt, "hot")
 	}
-	budget := c29FlitBudget
+	budget := flitBudget
 	for i := 0; i < nmsg; i++ {
 		s := rapid.IntRange(0, len(pts)-1).Draw(rt, "src")
 		var d int
@@ -117,6 +120,7 @@ func genC29(rt *rapid.T) c29Case {
 // c29Result is what one execution produced (also used by the sensitivity
 // self-test).
 type c29Result struct {
+	reg      *capReg
 	built    *built
 	sent     []messaging.MsgMeta
 	rec      *recorder
@@ -129,7 +133,11 @@ type c29Result struct {
 
 // c29Execute builds the network, loads the scripts, runs the engine until it
 // is idle. Panics of the code under test are returned as (sig,msg).
-func c29Execute(c c29Case) (res c29Result, sig, msg string) {
+func c29Execute(c c29Case) (res c29Result, sig, msg string) { return c29ExecuteWith(c, nil) }
+
+// c29ExecuteWith additionally calls instr after the network is built and before
+// any traffic is loaded (C03 attaches its fingerprint hooks there).
+func c29ExecuteWith(c c29Case, instr func(reg *capReg, b *built)) (res c29Result, sig, msg string) {
 	timing.ResetIDGenerator()
 	timing.GetIDGenerator()
 	timing.SetIDGeneratorNextID(c.IDBase)
@@ -144,6 +152,10 @@ func c29Execute(c c29Case) (res c29Result, sig, msg string) {
 		return res, "build:" + sig, msg
 	}
 	res.built = b
+	res.reg = reg
+	if instr != nil {
+		instr(reg, b)
+	}
 
 	res.rec = &recorder{engine: reg.engine}
 	res.netRec = &recorder{engine: reg.engine}
@@ -313,56 +325,9 @@ func TestC29Delivery(t *testing.T) {
 		}
 
 		// --- classification, from what happened ---
-		dist := b.model.bfs()
-		maxHops, sameEP := 0, false
-		for i, m := range c.Msgs {
-			if delivered[res.sent[i].ID] == 0 {
-				continue
-			}
-			if m.SD == m.DD {
-				sameEP = true
-			}
-			if h := dist[b.model.DevHost[m.SD]][b.model.DevHost[m.DD]]; h > maxHops {
-				maxHops = h
-			}
-		}
-		multiFlit, interleaved := false, false
-		open := map[string]map[uint64]int{} // per network port: partially arrived messages
-		for _, e := range res.netRec.events {
-			fl, isFlit := e.Msg.(packetization.Flit)
-			if !isFlit {
-				continue
-			}
-			if fl.NumFlitInMsg > 1 {
-				multiFlit = true
-			}
-			if e.Pos != messaging.HookPosPortMsgRecvd {
-				continue
-			}
-			if open[e.Port] == nil {
-				open[e.Port] = map[uint64]int{}
-			}
-			o := open[e.Port]
-			for id := range o {
-				if id != fl.Msg.ID {
-					interleaved = true // another message is partially here
-				}
-			}
-			o[fl.Msg.ID]++
-			if o[fl.Msg.ID] >= fl.NumFlitInMsg {
-				delete(o, fl.Msg.ID)
-			}
-		}
-		backpressure, stalled := false, false
-		for i, a := range b.agents {
-			if a.blocked > 0 {
-				backpressure = true
-			}
-			sp := c.Topo.Devs[i].Agent
-			if (sp.DrainPeriod > 1 || sp.InitStall > 0) && a.received > 0 {
-				stalled = true
-			}
-		}
+		st := c29Classify(c, res, delivered)
+		maxHops, sameEP, multiFlit, interleaved, backpressure, stalled :=
+			st.maxHops, st.sameEP, st.multiFlit, st.interleaved, st.backpressure, st.stalled
 		classes := []string{"kind:" + c.Conn.Kind, "shape:" + c.Topo.Shape, fmt.Sprintf("hops:%d", min(maxHops, 4))}
 		if c.Conn.Router != "" {
 			classes = append(classes, "router:"+c.Conn.Router)
@@ -394,6 +359,65 @@ func TestC29Delivery(t *testing.T) {
 
 	kit.SetChecks(2000, 12000)
 	rapid.Check(t, func(rt *rapid.T) { c := genC29(rt); run(rt, c) })
+}
+
+// c29Stats is what a run did, for the non-triviality rules of C29 and C03.
+type c29Stats struct {
+	maxHops                                               int
+	sameEP, multiFlit, interleaved, backpressure, stalled bool
+}
+
+// c29Classify: delivered == nil counts every scripted message.
+func c29Classify(c c29Case, res c29Result, delivered map[uint64]int) (st c29Stats) {
+	b := res.built
+	dist := b.model.bfs()
+	for i, m := range c.Msgs {
+		if delivered != nil && delivered[res.sent[i].ID] == 0 {
+			continue
+		}
+		if m.SD == m.DD {
+			st.sameEP = true
+		}
+		if h := dist[b.model.DevHost[m.SD]][b.model.DevHost[m.DD]]; h > st.maxHops {
+			st.maxHops = h
+		}
+	}
+	open := map[string]map[uint64]int{} // per network port: partially arrived messages
+	for _, e := range res.netRec.events {
+		fl, isFlit := e.Msg.(packetization.Flit)
+		if !isFlit {
+			continue
+		}
+		if fl.NumFlitInMsg > 1 {
+			st.multiFlit = true
+		}
+		if e.Pos != messaging.HookPosPortMsgRecvd {
+			continue
+		}
+		if open[e.Port] == nil {
+			open[e.Port] = map[uint64]int{}
+		}
+		o := open[e.Port]
+		for id := range o {
+			if id != fl.Msg.ID {
+				st.interleaved = true // another message is partially here
+			}
+		}
+		o[fl.Msg.ID]++
+		if o[fl.Msg.ID] >= fl.NumFlitInMsg {
+			delete(o, fl.Msg.ID)
+		}
+	}
+	for i, a := range b.agents {
+		if a.blocked > 0 {
+			st.backpressure = true
+		}
+		sp := c.Topo.Devs[i].Agent
+		if (sp.DrainPeriod > 1 || sp.InitStall > 0) && a.received > 0 {
+			st.stalled = true
+		}
+	}
+	return st
 }
 
 func diffMeta(a, b messaging.MsgMeta) string {
